@@ -6,6 +6,7 @@ import (
 	"github.com/resgateio/resgate/server"
 	"sort"
 	"strings"
+	"time"
 
 	"github.com/resgateio/resgate/server/mq"
 	"github.com/resgateio/resgate/server/reserr"
@@ -1096,11 +1097,25 @@ func (g *gen) refBurst(limit int) {
 
 // drain answers every outstanding request (grants, current state) until none is left.
 func (g *gen) drain() {
+	waited := 0
 	for i := 0; i < 400; i++ {
 		reqs := g.w.mq.outstanding()
-		if len(reqs) == 0 || g.w.stall != "" {
+		if g.w.stall != "" {
 			return
 		}
+		if len(reqs) == 0 {
+			// Throttle.Done starts the next waiting callback with `go cb()`: between the answer
+			// that freed the slot and the request of the next callback the gateway looks idle. If a
+			// subscription still waits for an access answer, give that goroutine time to run.
+			if (g.w.cfg.referenceThrottle > 0 || g.w.cfg.resetThrottle > 0) && waited < 250 && g.w.accessCheckWaiting() {
+				waited++
+				time.Sleep(2 * time.Millisecond)
+				g.w.apply("# waiting for a throttled request", func() {})
+				continue
+			}
+			return
+		}
+		waited = 0
 		g.answerOne(reqs[0], true)
 	}
 	g.w.addViolation("C19", "drain-does-not-end", "requests keep being issued although every request is answered")
